@@ -35,6 +35,7 @@ type DemuxCfg struct {
 	Subnet   bool    `json:"subnet"`
 	MaxSteps int     `json:"max_steps"`
 	YieldP   float64 `json:"yield_p"`
+	Binds    bool    `json:"mostly_bind_and_close,omitempty"` // C10: the workload is mostly open/close/reopen
 }
 
 func (scDemux) GenCfg(rng *sim.Rand, tier, prop, variant string) json.RawMessage {
@@ -42,6 +43,7 @@ func (scDemux) GenCfg(rng *sim.Rand, tier, prop, variant string) json.RawMessage
 	if rng.Chance(0.4) {
 		c.YieldP = []float64{0.05, 0.3}[rng.Intn(2)]
 	}
+	c.Binds = prop == "C10"
 	b, _ := json.Marshal(c)
 	return b
 }
@@ -552,7 +554,11 @@ func (w *dmWorld) apply(s Step) {
 
 func (w *dmWorld) next() Step {
 	r := w.Rng
-	switch r.Pick(6, 1, 10, 0, 1, 1) {
+	weights := []int{6, 1, 10, 0, 1, 1}
+	if w.cfg.Binds {
+		weights = []int{8, 5, 3, 0, 1, 4}
+	}
+	switch r.Pick(weights...) {
 	case 0:
 		kind := r.Pick(4, 3, 3, 3, 2)
 		mode := 0
